@@ -621,6 +621,9 @@ class SeriesOps:
             if short in ("lt", "le", "gt", "ge", "eq", "ne"):
                 return M.compare({"lt": "Lt", "le": "LtE", "gt": "Gt", "ge": "GtE", "eq": "Eq", "ne": "NotEq"}[short], pos[0], pos[1], node)
             return M.binop({"add": "Add", "sub": "Sub", "mul": "Mult", "and_": "BitAnd", "or_": "BitOr"}[short], pos[0], pos[1], node)
+        if name in ("np.array", "np.asarray", "numpy.array", "numpy.asarray") and len(pos) == 1 and set(kw) == {"dtype"} and (kw["dtype"] is bool or (isinstance(kw["dtype"], ExtMod) and kw["dtype"].name in ("builtins.bool", "bool", "np.bool_")) or kw["dtype"] == "bool") \
+                and isinstance(a0, Ser) and isinstance(a0.term, tuple) and a0.term and a0.term[0] in ("cmp", "and", "or", "not", "in", "eq", "ne", "notnull", "isnull"):
+            return a0          # a boolean mask as a boolean array: the same mask
         if name in ("np.array", "np.asarray", "numpy.array", "numpy.asarray") and len(pos) == 1 and not kw and not isinstance(a0, (Ser, Frame)):
             return a0 if isinstance(a0, (list, tuple)) else to_term(a0)          # an array holding the same elements in the same order
         if name in ("np.unique",):
